@@ -223,6 +223,15 @@ ROUND4 = {
 }
 
 # ... and the fifth round (DESIGN.md section 19)
+HUNT = {
+ "C01": " After round 5: an hourly model fitted on a float32 frame.",
+ "C02": " After round 5: a model configured with a supplemental categorical column predicting sets with and without it; a refit attempt that fails inside the daily / billing fit.",
+ "C06": " After round 5 (part M): hourly models fitted on meters exactly constant over part of the temperature range (heating-only at 0 when warm, cooling-only, two-decimal resolution, constant pilot), fitted and reloaded, predicting their baseline, a summer and a winter window.",
+ "C09": " After round 5: one-day and two-day data objects through every entry point; frames whose weather rows start 6 / 30 hours before the first meter day.",
+ "C10": " After round 5: frames carrying an unrelated column with missing values.",
+ "C14": " After round 5 (space sharing): nested hourly settings blocks shared between settings objects, re-validation of a finished object - the seed an object works with stays its own.",
+}
+
 ROUND5 = {
  "C01": " Round 5: profiles whose custom week is actually selected, a CalTRACK baseline with an hour of the week never metered, a float32 meter with an extreme value, and one default-featured hourly object fitted on baselines with and without irradiance.",
  "C02": " Round 5: another model fitted on / predicting the same instants in a zone with the same offsets but other clock changes.",
@@ -259,8 +268,8 @@ def main():
                 "evidence_file": f"/verif/evidence/{pid}.json",
                 "replay_cmd_template": f"cd /verif && {PY} -m mc.run {pid} --replay {{path}}",
                 "engine": "mc",
-                "level_claimed": {"category": cat, "text": text + ROUND4.get(pid, "") + ROUND5.get(pid, ""),
-                                  "design_ref": ref + ("; section 18" if pid in ROUND4 else "") + ("; section 19" if pid in ROUND5 else "")},
+                "level_claimed": {"category": cat, "text": text + ROUND4.get(pid, "") + ROUND5.get(pid, "") + HUNT.get(pid, ""),
+                                  "design_ref": ref + ("; section 18" if pid in ROUND4 else "") + ("; section 19" if pid in ROUND5 else "") + ("; section 20" if pid in HUNT else "")},
                 "level_note": note,
                 "technique": tech,
             })
